@@ -211,6 +211,7 @@ PROPS["C25"] = {
                    "and one step of the k-way merge loop as an inductive step (queued output rows must keep pointing at the rows that were chosen). All three failed on the pinned tree "
                    "(defects D10, D11, D15, repaired by fix: commits) and hold now.",
     "kani": [
+        H(SPL, "rows_c::c25_kx_compare_key_is_key_order", "streaming_k_way_merge::compare_rows (body of the per-key loop)", "for one sort key, every direction x NULL placement x cell state: a non-Equal result is the key's run order, Equal exactly on ties (loop-free, full domain)", lane="KX"),
         H(SPL, "rows_c::c25_kx_compare_rows_is_run_order", "streaming_k_way_merge::compare_rows (closure body)", "lexicographic over the keys with each key's direction and NULL placement = the order sort_batch gave the runs (make_comparator by Arrow's contract)", lane="B", bound="<= 2 sort keys"),
         H(SPL, "fetch_c::c25_kx_spilled_result_honours_fetch", "ExternalSortExec::execute (spilled branch)", "output rows == rows [0, min(fetch,total)) of the merged order, contiguous and in order; slice preconditions met; no overflow", lane="B", bound="<= 3 runs, merged rows in <= 2 batches (every split point, every row count)"),
         H(SPL, "merge_c::c25_kx_merge_step_keeps_pending_rows_b2", "streaming_k_way_merge (loop step after the minimum is chosen)", "inductive step from an arbitrary state: materialized rows ++ pending rows (read through the CURRENT buffers) == old pending rows ++ [chosen row]; every pending row indexes a live buffer below its cursor; the step never fails", lane="B", bound="2 runs, <= 2 pending rows (every buffer size, cursor, flush threshold, reader state)"),
@@ -445,6 +446,11 @@ PROPS["C06"] = {
         H(CEX, "c06_cmp_f64_shape_reg_reg__excluding_known", "CompiledPredicate::eval_chunk (CmpF64, LitF64)", "register/register shape keeps the operand order", tier="thorough"),
         H(CEX, "c06_cmp_i64_scalars", "CompiledPredicate::eval_chunk (CmpI64)", "mask bit == arrow i64 comparison, all inputs, mask is 0/1"),
         H(CEX, "c06_cmp_i32_scalars", "CompiledPredicate::eval_chunk (CmpI32)", "mask bit == arrow i32 comparison (Int32 and Date32 columns), all inputs"),
+        H(CEX, "loop_c::c06_kx_chunk_loop_n19", "CompiledPredicate::evaluate (everything between column resolution and the BooleanArray: slab allocation, bitmap decision, the whole chunk loop)", "19 rows = chunks 8+8+3 (CHUNK = 8 instance): appended mask bit r == truth of row r, exactly n bits, validity bitmap present when any column has a NULL and row-valid == all columns valid; eval_chunk by contract", lane="B", bound="CHUNK = 8 instance of the text; n = 19; 1-2 columns"),
+        H(CEX, "loop_c::c06_kx_chunk_loop_n13", "CompiledPredicate::evaluate (chunk loop)", "same, 13 rows = 8 + ragged 5", lane="B", bound="CHUNK = 8 instance; n = 13"),
+        H(CEX, "loop_c::c06_kx_chunk_loop_n8", "CompiledPredicate::evaluate (chunk loop)", "same, exactly one chunk", lane="B", bound="CHUNK = 8 instance; n = 8"),
+        H(CEX, "loop_c::c06_kx_chunk_loop_n5", "CompiledPredicate::evaluate (chunk loop)", "same, one ragged chunk", lane="B", bound="CHUNK = 8 instance; n = 5"),
+        H(CEX, "loop_c::c06_kx_chunk_loop_n0", "CompiledPredicate::evaluate (chunk loop)", "same, empty batch", lane="B", bound="CHUNK = 8 instance; n = 0"),
         H(CEX, "c06_pack_bits_region", "CompiledPredicate::evaluate (bit-packing region)", "bit i of the packed buffer == (mask[i] != 0) for i < len; no bit set beyond the last byte", lane="KX", bound="chunk lengths 0..=19 (every len % 8)"),
         H(CEX, "c06_lit_f64_fills_register", "CompiledPredicate::eval_chunk (LitF64)", "the literal fills its register; other registers untouched"),
         H(CEX, "c06_arith_f64_add", "CompiledPredicate::eval_chunk (Arith, LitF64)", "Add bit-equal to the IEEE operation; operand registers untouched (magnitudes bounded so results stay finite)", tier="thorough"),
